@@ -81,7 +81,7 @@ try:
     for l in o.splitlines():
         if l[:2] == "??":
             f = l[3:].strip()
-            if f in ("MUTATION.diff", "DEMO.md", "META.json") or f.endswith(".orig") or f.endswith(".rej"):
+            if f in ("MUTATION.diff", "DEMO.md", "META.json", "TASK.md") or f.endswith(".orig") or f.endswith(".rej"):
                 continue
             demos.append(f)
     res["demo_files"] = demos
